@@ -200,6 +200,27 @@ def run(scn, seed, line_p=0.05, stick=0.5, decisions=None, rpc_timeout=2):
             finally:
                 st['need'][c] = None
             return '(CRBodies %s %s)' % (coq_list([coq_bytes(m._body) for m in got]), er)
+        if k == 'cbcancel':
+            # a consumer that cancels itself from inside its callback, on its first message
+            # (op[2]: the callback takes the tuple form)
+            ch = st['chans'][c]
+            tag = op[1].decode('latin-1')
+            seen = []
+
+            def cb(*args):
+                seen.append(1)
+                if len(seen) == 1:
+                    ch.basic.cancel(tag)
+                    raise Done()
+            ch.basic.consume(cb, 'q', consumer_tag=tag)
+            st['dtag'] = st.get('dtag', 0) + 1
+            br.deliver_message(c, tag, st['dtag'], b'cb')
+            try:
+                while not ch.is_closed and not seen:
+                    ch.process_data_events(to_tuple=op[2])
+            except Done:
+                pass
+            return 'CRNone'
         if k == 'sync_timer':
             # wait until the instant the next heartbeat timer is due
             due = [t.deadline for t in rt.timers if t.armed]
@@ -333,7 +354,7 @@ def cop_coq(op):
         return '(CClose %s)' % coq_Z(op[1])
     if k == 'consume':
         return '(CConsume %s)' % coq_bytes(op[1])
-    if k == 'cancel':
+    if k in ('cancel', 'cbcancel'):
         return '(CCancel %s)' % coq_bytes(op[1])
     if k == 'drain':
         return '(CDrain %s)' % coq_nat(op[1])
